@@ -11,6 +11,7 @@
 // Bound: |got - ref| <= 4 ulp_T(ref) for product/quotient/root formulas; |got - ref| <= 4 (ulp_T(ref) + Delta) for
 // formulas that subtract (Delta = largest change of the binary128 reference when one input moves by one ulp of T).
 // Tensor-valued rows are checked slot by slot.
+#include <map>
 #include <tuple>
 #include <utility>
 
@@ -216,6 +217,16 @@ static const char* const kClassName[6] = {"wide", "moderate", "near-equal", "nea
 // In calibration mode every row gets the class and failures are listed instead of reported.
 static std::set<std::string> g_wide_rows;
 static bool g_calibrate = false;
+// Calibrated range cases.  kRangeCases inputs per (row, numeric type) are drawn, from a seed that never changes, over most of
+// the exponent range of the type (float +-100 binades, double +-800, long double +-13000).  Most formulas cannot hold on all
+// of them: an intermediate product of the library's evaluation leaves the range although inputs and result do not, and
+// which intermediate that is depends on the order of evaluation, which the property does not fix.  The calibration file
+// (one line "row<TAB>type<TAB>hex mask", written by tools/calibrate.py on the tree it is committed with) marks the cases
+// that held there with margin (error <= half the bound); such a case failing later is an input for which the definition
+// used to evaluate to its formula and no longer does.
+static const int kRangeCases = 256;
+static std::map<std::string, std::string> g_range_masks;  // "row|type" -> hex mask, bit k of digit k/4
+static bool g_range_loaded = false;
 
 // ------------------------------------------------------------------------------------------------
 // row-independent half (instantiated once per numeric type and translation unit)
@@ -280,6 +291,43 @@ static bool in_normal_range(f128 v) {
   const f128 a = fabsq(v);
   if (a == 0) return true;
   return a >= ldexpq(1.0Q, Num<T>::emin + 8) && a <= ldexpq(1.0Q, Num<T>::emax - 8);
+}
+
+// Error of one observation in units of the bound's scale (ulp + Delta); false when the exact result is not a normal number.
+template <typename T>
+static bool measure(const RowInfo& ri, const std::vector<T>& x, const T* got, double& worst_ec, double& worst_eu, f128* y) {
+  f128 xq[16], yp[9], delta[9];
+  const int n = ri.nin, m = ri.nout;
+  for (int i = 0; i < n; ++i) xq[i] = static_cast<f128>(x[i]);
+  for (int j = 0; j < m; ++j) y[j] = 0, delta[j] = 0;
+  ri.ref(xq, y);
+  for (int j = 0; j < m; ++j) {
+    if (!(y[j] == y[j]) || isinfq(y[j]) || !in_normal_range<T>(y[j]) || y[j] == 0) return false;
+  }
+  if (ri.flags & F_COND) {
+    for (int i = 0; i < n; ++i) {
+      const f128 keep = xq[i];
+      for (int s = 0; s < 2; ++s) {
+        xq[i] = static_cast<f128>(s ? next_up(x[i]) : next_down(x[i]));
+        for (int j = 0; j < m; ++j) yp[j] = 0;
+        ri.ref(xq, yp);
+        for (int j = 0; j < m; ++j) {
+          const f128 c = fabsq(yp[j] - y[j]);
+          if (c == c && !isinfq(c) && c > delta[j]) delta[j] = c;
+        }
+      }
+      xq[i] = keep;
+    }
+  }
+  worst_ec = 0;
+  worst_eu = 0;
+  for (int j = 0; j < m; ++j) {
+    const double eu = ulps<T>(got[j], y[j]);
+    const double ec = cond_error<T>(got[j], y[j], delta[j]);
+    if (!(eu <= worst_eu)) worst_eu = eu;
+    if (!(ec <= worst_ec)) worst_ec = ec;
+  }
+  return true;
 }
 
 // Compare one observation (inputs x as the library holds them, outputs got) with the binary128 formula.
@@ -404,6 +452,62 @@ static void run_cases(Reporter& R, const Args& A, const RowInfo& ri, Acc& acc, C
     // the one shard it is assigned to (the driver adds the shards' counts)
     const uint64_t dk = static_cast<uint64_t>(ri.index) * 32 + static_cast<uint64_t>(Num<T>::idx) * 8 + static_cast<uint64_t>(cls);
     if (A.mine(dk)) R.nontrivial(mix(dk, 0xC18));
+  }
+  // calibrated range cases (see kRangeCases)
+  if (!g_calibrate && !g_range_loaded) return;
+  const std::string mkey = ri.name + "|" + Num<T>::name;
+  const auto mit = g_range_masks.find(mkey);
+  if (!g_calibrate && mit == g_range_masks.end()) {
+    R.list("range_rows_without_calibration", mkey);
+    return;
+  }
+  const int W = std::is_same_v<T, float> ? 100 : std::is_same_v<T, double> ? 800 : 13000;
+  std::string mask(static_cast<size_t>(kRangeCases / 4), '0');
+  long long replayed = 0;
+  for (int k = 0; k < kRangeCases; ++k) {
+    bool marked = false;
+    if (!g_calibrate) {
+      const char c = static_cast<size_t>(k / 4) < mit->second.size() ? mit->second[static_cast<size_t>(k / 4)] : '0';
+      const int digit = c >= 'a' ? c - 'a' + 10 : c - '0';
+      marked = (digit >> (k % 4)) & 1;
+      if (!marked || !A.mine(static_cast<uint64_t>(k) + static_cast<uint64_t>(ri.index) * 3)) continue;
+    } else if (A.shard != 0) {
+      break;  // calibration is written by one shard
+    }
+    Rng rng(mix(mix(0xCA11B8A7E5ULL, static_cast<uint64_t>(ri.index) * 4 + Num<T>::idx), static_cast<uint64_t>(k)));
+    for (auto& v : x) v = rng.logu<T>(-W, W);
+    std::tuple<In...> args{build<In, T>(x, offs[Is], acc)...};
+    const Out out = call(std::get<Is>(args)...);
+    const auto got = to_si(out);
+    double ec = 0, eu = 0;
+    f128 y[9];
+    const bool judged = measure<T>(ri, x, got.data(), ec, eu, y);
+    if (g_calibrate) {
+      if (judged && ec <= kK / 2) {
+        char& c = mask[static_cast<size_t>(k / 4)];
+        int digit = c >= 'a' ? c - 'a' + 10 : c - '0';
+        digit |= 1 << (k % 4);
+        c = static_cast<char>(digit < 10 ? '0' + digit : 'a' + digit - 10);
+      }
+      continue;
+    }
+    ++replayed;
+    R.eval(static_cast<uint64_t>(ri.nout));
+    if (!judged || !(ec <= kK)) {
+      R.violation("C18|row=" + ri.name + "|" + Num<T>::name + "|calibrated-range",
+                  J().s("row", ri.name).s("numeric_type", Num<T>::name).s("input_class", "calibrated-range")
+                      .i("range_case", k).raw("inputs", jvec(x.data(), ri.nin)).raw("got", jvec(got.data(), ri.nout))
+                      .raw("exact", jvecq(y, ri.nout)).d("error_ulps", eu).d("error_in_units_of_ulp_plus_delta", ec).d("bound", kK)
+                      .s("meaning", "this input held with margin on the tree the calibration file was written for: inputs and exact "
+                                    "result are normal numbers, an intermediate of the evaluation now leaves the range or loses accuracy").str());
+      break;
+    }
+  }
+  if (g_calibrate) {
+    if (A.shard == 0) R.list("range_mask|" + mkey, mask);
+  } else {
+    R.count("range_cases_replayed|" + std::string(Num<T>::name), replayed);
+    if (replayed) R.nontrivial(mix(static_cast<uint64_t>(ri.index) * 32 + Num<T>::idx * 8 + 7, 0xC18));
   }
 }
 
@@ -767,6 +871,18 @@ void VERIF_THIS_PART(Reporter& R, const Args& A) {
     std::string line;
     while (std::getline(in, line)) {
       if (!line.empty()) g_wide_rows.insert(line);
+    }
+  }
+  g_range_masks.clear();
+  g_range_loaded = false;
+  {
+    std::ifstream in(A.get("range_cases"));
+    std::string line;
+    while (std::getline(in, line)) {
+      const size_t a = line.find('\t'), b = line.rfind('\t');
+      if (a == std::string::npos || b == a) continue;
+      g_range_masks[line.substr(0, a) + "|" + line.substr(a + 1, b - a - 1)] = line.substr(b + 1);
+      g_range_loaded = true;
     }
   }
   table<float>(R, A);
